@@ -311,7 +311,8 @@ class GW(StoreW):
                 inner = b"".join(u64(t_) + u64(1) + b"\x01" for t_ in r.sample([K.CKA_EXTRACTABLE, K.CKA_SENSITIVE, K.CKA_TOKEN, K.CKA_LABEL], r.randint(0, 3)))
                 if r.random() < 0.4: inner += u64(K.CKA_LABEL) + u64(3) + u64(5) + b"hello"
                 enc = u64(len(inner)) + inner
-            how = {"k": "retype", "index": r.randrange(64), "kind": kind, "enc": enc.hex()}
+            # attributes are stored sorted by type: index 3 is CKA_LABEL in almost every object (what a search by label decrypts for a private object)
+            how = {"k": "retype", "index": r.choice([3, 3, r.randrange(64), r.randrange(64)]), "kind": kind, "enc": enc.hex()}
         else:
             path = "/sim/tokens/%s/%s" % ("@", "x"); how = None
         if how is None and r.random() < 0.5:
